@@ -161,9 +161,12 @@ def judge(case, prog, obs):
                 elif seen_exit:
                     P.append("%s logs %s after its on_exit callbacks" % (name, ev))
             tmpl = next(a for a in prog["actors"] if a["name"] == name)
-            regs = list(range(1, tmpl.get("on_exit", 0) + nreg + 1))
-            if ends != list(reversed(regs)):
-                P.append("%s: on_exit callbacks ran %s, registered %s (must run once each, in reverse order)" % (name, ends, regs))
+            base = tmpl.get("on_exit", 0)
+            started = any(e not in ("start", "on_exit") or v == "ok" for (e, v, c) in log)   # got past its template set-up
+            lo, hi = (base + nreg if started else 0), base + nreg + 1      # +1: a registration whose record was lost to a kill
+            m = len(ends)
+            if ends != list(range(m, 0, -1)) or not (lo <= m <= hi):
+                P.append("%s: on_exit callbacks ran %s, %d..%d registered (must run once each, in reverse order)" % (name, ends, lo, hi))
             if not any(e == "end" for (e, v, c) in log):
                 res["nontrivial"] = True
             for k in range(1, len(log)):
